@@ -156,6 +156,8 @@ class Collector:
         self.known = known
         self.evals = 0
         self.nontrivial: set = set()
+        self.nt_counted = 0  # non-trivial cases of phases whose cases are distinct by construction (enumerations)
+        self.count_only: set = set()
         self.labels: Counter = Counter()
         self.phase_evals: Counter = Counter()
         self.buckets: Dict[tuple, dict] = {}
@@ -170,11 +172,16 @@ class Collector:
         for lab in res.labels:
             self.labels[lab] += 1
         if res.nontrivial:
-            h = case_hash(res.key if res.key is not None else case)
-            if h not in self.nontrivial:
-                self.nontrivial.add(h)
+            if phase in self.count_only:
+                self.nt_counted += 1
                 if len(self.nt_samples) < 4:
                     self.nt_samples.append(case)
+            else:
+                h = case_hash(res.key if res.key is not None else case)
+                if h not in self.nontrivial:
+                    self.nontrivial.add(h)
+                    if len(self.nt_samples) < 4:
+                        self.nt_samples.append(case)
         if len(self.samples) < 3:
             self.samples.append(case)
         main_case = case
@@ -196,6 +203,7 @@ class Collector:
         self.phase_evals.update(other.phase_evals)
         self.labels.update(other.labels)
         self.nontrivial |= other.nontrivial
+        self.nt_counted += other.nt_counted
         for s in other.samples:
             if len(self.samples) < 3:
                 self.samples.append(s)
@@ -233,6 +241,7 @@ class Phase:
     exhaustive: bool = False
     evaluate: Optional[Callable[[Any], Res]] = None  # override prop.evaluate
     chunk: int = 0  # enum: items per task (0 = auto)
+    distinct: bool = False  # enum: the enumerated cases are pairwise distinct by construction (count, do not hash)
     shards: int = 0  # gen: number of shards (0 = NWORKERS)
 
 
@@ -279,6 +288,8 @@ def _enum_task(args):
     ph = phases[pidx]
     ev = ph.evaluate or prop.evaluate
     col = Collector(prop.ID, known)
+    if ph.distinct:
+        col.count_only.add(ph.name)
     items = _W["items"][pidx]
     try:
         for i in range(lo, hi):
@@ -561,7 +572,7 @@ def run_property(prop, tier: str, seed: int) -> int:
     samples = [_trim(s) for s in samples[:8]]
     cov = {
         "evaluations": total.evals,
-        "distinct_nontrivial": len(total.nontrivial),
+        "distinct_nontrivial": len(total.nontrivial) + total.nt_counted,
         "rule": prop.RULE,
         "samples": samples,
         "labels": {k: v for k, v in sorted(total.labels.items())},
@@ -591,7 +602,7 @@ def run_property(prop, tier: str, seed: int) -> int:
     with open(os.path.join(evdir, f"{prop.ID}.json"), "w", encoding="utf8") as f:
         json.dump(ev, f, ensure_ascii=False, indent=1, default=repr)
     print(
-        f"{prop.ID} tier={tier} seed={seed}: evaluations={total.evals} distinct_nontrivial={len(total.nontrivial)} "
+        f"{prop.ID} tier={tier} seed={seed}: evaluations={total.evals} distinct_nontrivial={len(total.nontrivial) + total.nt_counted} "
         f"new_buckets={len(new_keys)} known={len(known_keys)} wall={wall:.1f}s"
     )
     if harness_errors:
